@@ -20,7 +20,11 @@ CAP = 600
 
 
 def cases(tier, seed):
-    return D.spec_cases(tier, seed, None, 330, 2600, "c02")
+    from vlib import gen2
+    out = D.spec_cases(tier, seed, None, 330, 2600, "c02")
+    # appended classes (vlib/gen2.py): unequal preambles, preamble + block constraints, Nest outer constraints,
+    # weighted leftover rounds, colliding level names
+    return out + gen2.appended(tier, seed, "c02", ["A1", "A2", "A3", "A4", "A5"], 100, 700)
 
 
 def compare(p, want, got, strat, exhausted=True):
